@@ -6,3 +6,6 @@ open Just.Props.C14
 #print axioms dry_run_line
 #print axioms dry_run_executes_nothing
 #print axioms dry_run_main_executes_nothing
+#print axioms echo_switches_change_only_echo
+#print axioms quiet_changes_no_execution
+#print axioms noEcho_keeps_everything_else
